@@ -63,6 +63,17 @@ CLAIMED = {
              "width/height, image shape == resolution, pixel boundaries where the reported geometry says (probe), "
              "request covered with <= 1 pixel excess. Exploration.",
         note="Identities rel 1e-9; probes resolve boundary errors above 1% of a pixel; only in-domain operations generated."),
+    "C11": dict(
+        design="4/C11", engine="parallel",
+        technique="deterministic simulation of joblib.Parallel (SimParallel seam): isolated reused workers forked from a "
+                  "pristine zygote behind a pickle boundary, cooperative threads and line-preemptive baton threads, with "
+                  "dispatch / completion / preemption decided by the seeded scheduler; serial code as reference",
+        text="Seeded search over (imager configuration x diagrams x call plan x worker schedule): alone vs in collections, "
+             "n_jobs in {None,1,2,3,-1,16}, permutations, unions (additivity), zero-weight points, skew=False on "
+             "pre-converted input, fit_transform; non-negativity and mass bound; caller's diagrams and imager state "
+             "byte-identical after every call. Exploration.",
+        note="SimParallel replaces joblib.Parallel for n_jobs >= 2; n_jobs None/1 run real code. Thread modes model the "
+             "threading backend users select via joblib.parallel_config."),
 }
 
 NOT_APPLICABLE = {
